@@ -292,8 +292,11 @@ class PairWalker(object):
             body = self.walk(st.body, alts)
             res = set(body)
             if st.orelse: res = self.walk(st.orelse, body)
+            # a single simple statement that raises has not had its effect (a key that pop() did not find was not deleted)
+            single = len(st.body) == 1 and isinstance(st.body[0], (ast.Assign, ast.AugAssign, ast.Expr))
             for h in st.handlers:
-                res |= self.walk(h.body, alts | body)
+                specific = h.type is not None and not (isinstance(h.type, ast.Name) and h.type.id in ('Exception', 'BaseException'))
+                res |= self.walk(h.body, alts if (single and specific) else (alts | body))
             if st.finalbody: res = self.walk(st.finalbody, res)
             return res
         if isinstance(st, ast.With):
